@@ -87,6 +87,12 @@ def replace_variable(ds, name, variable, new_name=None):
     return out
 
 
+def _without_dtype(encoding):
+    """The encoding of a variable that was given another dtype: the remembered on-disk dtype
+    (which make_cache_key prefers over the in-memory one) no longer describes it."""
+    return {k: v for k, v in encoding.items() if k != "dtype"}
+
+
 def geometry_edits(spec, ds):
     """Yield (label, edited dataset) - each changes exactly one aspect of one geometry variable."""
     names = [n for n in c05.geometry_names(spec) if n in ds.variables]
@@ -108,15 +114,18 @@ def geometry_edits(spec, ds):
             cast = var.values.astype(target)
             if numpy.array_equal(cast.astype(var.dtype), var.values, equal_nan=True):
                 yield f"dtype:{name}", replace_variable(
-                    ds, name, xarray.Variable(var.dims, cast, var.attrs, var.encoding))
+                    ds, name, xarray.Variable(var.dims, cast, var.attrs, _without_dtype(var.encoding)))
     # dtype with identical bytes: the same buffer read as integers instead of floats
     for name in numeric:
         var = ds.variables[name]
         target = {"f8": "i8", "f4": "i4", "i8": "f8", "i4": "f4"}.get(var.dtype.str[1:])
-        if target is not None and var.values.flags.c_contiguous or target is not None:
+        # (only for variables without a remembered on-disk dtype: make_cache_key hashes that
+        # name in preference to the in-memory one, so a decoded float table and its bytes read as
+        # the on-disk integer type are indistinguishable by construction - an artificial edit)
+        if target is not None and "dtype" not in var.encoding:
             view = numpy.ascontiguousarray(var.values).view(target)
             yield f"dtype_same_bytes:{name}", replace_variable(
-                ds, name, xarray.Variable(var.dims, view, var.attrs, var.encoding))
+                ds, name, xarray.Variable(var.dims, view, var.attrs, _without_dtype(var.encoding)))
             break
     # shape with identical bytes: 2-D coordinates of a non-square grid without bounds
     if (conv in ("cf2d", "shoc_simple") and not spec["geom"]["bounds"]
@@ -251,7 +260,7 @@ def check_spec(spec, ctx):
         # The key is a function of what the dataset holds now, not of what it held when it was
         # first asked.
         from emsarray.operations.cache import make_cache_key
-        work = ds.copy(deep=True)
+        work = ds.copy(deep=True).load()      # in memory: the edits below must write through
         bind(spec, work)
         ctx.at("C16.in_place_history")
         previous = make_cache_key(work)
@@ -263,6 +272,8 @@ def check_spec(spec, ctx):
             if k is None or not values.flags.writeable or not numpy.shares_memory(flat, values):
                 continue
             flat[k] = flat[k] + (1 if values.dtype.kind in "iu" else 0.5)
+            if work.variables[name].values.reshape(-1)[k] != flat[k]:
+                continue        # (not a view of the variable's own memory after all)
             # (both keys are made while both dataset objects exist, so that the attribute
             # objects are shared to the same degree - see the attribute-identity finding)
             twin = work.copy(deep=False)
@@ -422,7 +433,7 @@ def check_processes(case, ctx):
     ctx.nontrivial(True)
 
 
-SPEC = S.dataset_spec(max_vars=2, max_extra=1, modes=("raw",), geom_kwargs={"max_n": 3, "max_j": 2, "max_i": 2})
+SPEC = S.dataset_spec(max_vars=2, max_extra=1, modes=("raw", "raw", "decoded", "file", "dask"), geom_kwargs={"max_n": 3, "max_j": 2, "max_i": 2})
 BARE_SPEC = S.dataset_spec(with_vars=False, modes=("raw",), geom_kwargs={"max_n": 3, "max_j": 2, "max_i": 2, "holes": False})
 
 
